@@ -175,9 +175,15 @@ def run(res, tier, seed):
         try:
             r = impl.open_reader(fmt, l1b.build_file(fmt, sc, start, lines), adjust_clock_drift=False)
             ch = r.get_calibrated_channels()
+            r.get_counts()
+            ch_again = r.get_calibrated_dataset()["channels"].values     # a second calibration on the same reader
         except Exception as e:  # noqa
             res.violations.append(("reader pipeline raised %r" % (e,), ctx))
             continue
+        if not impl.nan_eq(ch, ch_again):
+            dif = np.abs(np.where(np.isnan(ch) | np.isnan(ch_again), 0.0, ch - ch_again))
+            res.violations.append(("a second calibration of the same reader gives other brightness temperatures (the result is not a function of the pixel's count and the telemetry alone)",
+                                   dict(ctx, max_difference_K=float(dif.max()), nan_pattern_differs=bool(np.any(np.isnan(ch) != np.isnan(ch_again))))))
         for chan in range(3):
             col = ch[:, 0, 3 + chan]
             for i in range(n):
